@@ -75,3 +75,29 @@ claim('C14', 'MemoryWriter operations proved over the full 64-bit domain: a writ
       'Trusted: CBMC/DFCC, extraction rules. DynamicMemoryWriter / FileWriter / copy loop: see evidence groups and not_decided.')
 claim('C19', 'IsPowerOf2 exact for all 2^32 inputs against popcount==1; Log2OfPowerOf2 inverse of 1<<k for all 32 powers.',
       'Trusted: CBMC. std::filesystem-based path helpers are not decided (no repository code to put under contract).')
+
+# ---- U-MAPH (C16, C07)
+def maph(fn, props, reach=NOEXC, replace=(), **kw):
+    G('maph.' + fn, props, 'maph', fn, replace=list(replace), reach=reach, replay={'driver': 'map_replay.cpp', 'case': fn}, **kw)
+maph('MapHeader_ctor', ['C18', 'C06'])
+maph('MapHeader_WidthInTiles', ['C07', 'C16'])
+maph('MapHeader_TileCount', ['C07', 'C16'])
+maph('MapHeader_VersionTagValid', ['C06'])
+maph('Map_ctor', ['C06'])
+maph('Map_GetTileIndex', ['C16'], timeout=900, what='index == block-order formula and < width*height, widths 2^5..2^10, any 32-bit height')
+maph('Map_GetTileMappingIndex', ['C16'], replace=['Map_GetTileIndex'])
+maph('Map_GetCellType', ['C16'], replace=['Map_GetTileIndex'])
+maph('Map_SetCellType', ['C16'], replace=['Map_GetTileIndex'], reach=['normal exit', 'exceptional exit'])
+maph('Map_GetLavaPossible', ['C16'], replace=['Map_GetTileIndex'])
+maph('Map_SetLavaPossible', ['C16'], replace=['Map_GetTileIndex'])
+maph('Map_GetTilesetIndex', ['C16'], replace=['Map_GetTileMappingIndex'])
+maph('Map_GetImageIndex', ['C16'], replace=['Map_GetTileMappingIndex'])
+maph('Map_CheckMinVersionTag', ['C06', 'C07'], reach=['normal exit', 'exceptional exit'])
+G('maph.lemma_injective_h256', ['C16'], 'maph', None, harness='h_lemma_tileindex_injective', loop_contracts=False, defines=['OP2_HMAX=256'],
+  reach=['collision reachable when coordinates are equal'], timeout=600,
+  what='L16.1 injectivity of the index formula for widths 2^5..2^10 and heights 1..256 (the domain the property quantifies over; complete for it)')
+G('maph.lemma_injective_anyheight', ['C16'], 'maph', None, harness='h_lemma_tileindex_injective', loop_contracts=False, tier='thorough',
+  reach=['collision reachable when coordinates are equal'], timeout=1800,
+  what='L16.1 injectivity for widths 2^5..2^10 and ANY 32-bit height')
+claim('C16', 'GetTileIndex proved equal to the 32-column block-order formula and < width*height for widths 2^5..2^10 and any 32-bit height; the formula is proved injective (quick: heights 1..256, the quantified domain; thorough: any height); every accessor is proved bit-exact against the serialised tile word, setters change exactly the named bits of exactly the addressed tile (ghost-index frame), out-of-range cell types are refused without change.',
+      'Widths above 2^10 not decided (nonlinear). Accessors assume the tile\'s mapping index is < |tileMappings| for GetTilesetIndex/GetImageIndex (precondition). CBMC bit-field layout agrees with g++ (checked by the header\'s static_assert on sizeof and by native replay).')
